@@ -10,8 +10,8 @@
     [<site>_unguarded_refuted] theorems document, with a computed witness, what the same code does without its
     guard (the library before the repairs listed in known_findings.d/C20.json); each witness is replayed on the
     real library by the corpus histories of corpus/C20. *)
-From Coq Require Import ZArith List Bool.
-Require Import H4.LimitsWidth H4.gen.Gen_Limits H4.LimitsSpec H4.LimitsModel H4.LimitsProofs.
+From Coq Require Import ZArith List Bool Lia.
+Require Import H4.LimitsWidth H4.gen.Gen_Limits H4.LimitsSpec H4.LimitsModel H4.LimitsProofs H4.LimitsMachine H4.LimitsMachineProofs.
 Import ListNotations.
 Local Open Scope Z_scope.
 
@@ -249,6 +249,43 @@ Theorem refused_site_requests_change_nothing :
 Proof. exact sites_refusal_lemma. Qed.
 Print Assumptions refused_site_requests_change_nothing.
 
+(** ---- the limit machine (LimitsMachine.v): ALL guarded sites composed into one state machine over the C-typed
+    counters (end of file, member count, element offset/length/position, highest ref, Vdata symbol table / field count
+    / record size / seek offset, name-length field, attribute count, number of data sets, open-file list).  [m_step] is
+    the machine as the C code computes it (regenerated guards, wrapping arithmetic, stores what the code stores also when
+    it refuses); [s_step] is the machine over unbounded integers.  [minv] = every counter within the range of its C
+    type and the element inside the file; [op_ok] = the arguments are values of their C types. ---- *)
+
+(** for EVERY history of operations: the C machine and the unbounded machine produce the same results and the same
+    states, and every reachable state keeps all counters in range -- "no descriptor, header or in-memory counter ever
+    wraps to a small or negative value" *)
+Theorem machine_refines_for_all_histories : forall ops st, minv st -> Forall op_ok ops ->
+  m_run st ops = s_run st ops /\ minv (fst (s_run st ops)).
+Proof. exact run_refines. Qed.
+Print Assumptions machine_refines_for_all_histories.
+
+Theorem machine_counters_never_wrap : forall ops st, minv st -> Forall op_ok ops -> minv (fst (m_run st ops)).
+Proof. exact run_counters_in_range. Qed.
+Print Assumptions machine_counters_never_wrap.
+
+Theorem machine_initial_state_in_range : forall eof0 app off elen,
+  0 <= eof0 <= INT32_MAX -> 0 <= off -> 0 <= elen -> off + elen <= eof0 -> minv (m_init eof0 app off elen).
+Proof. exact init_inv. Qed.
+Print Assumptions machine_initial_state_in_range.
+
+(** frame theorem over ALL guards: whatever operation the C machine refuses -- end-of-file limit, 65536th member,
+    field order / size, record size, VSFIELDMAX, seek / write products, position limits, name length, attribute size,
+    rank / name / variable count, open-file list -- it leaves EVERY field of the state as it was.  Stated on the machine
+    as the C code computes it, for any state (only "no fields set => record size 0", which VSattach establishes). *)
+Theorem machine_refused_operation_changes_nothing : forall st o, (q_nf st = 0 -> q_iv st = 0) ->
+  snd (m_step st o) = MRefused -> fst (m_step st o) = st.
+Proof. exact step_frame_raw. Qed.
+Print Assumptions machine_refused_operation_changes_nothing.
+
+Theorem machine_step_refines : forall st o, minv st -> op_ok o -> m_step st o = s_step st o.
+Proof. exact step_refines. Qed.
+Print Assumptions machine_step_refines.
+
 (** Non-vacuity: the hypotheses are met by concrete, non-trivial arguments on both sides of each limit *)
 Example getdiskblock_at_limit : m_getdiskblock 1073742118 1073741529 = (Some 1073742118, 2147483647)
                               /\ m_getdiskblock 1073742118 1073741530 = (None, 1073742118).
@@ -296,4 +333,33 @@ Example refusal_examples :
 Proof. vm_compute. repeat split; reflexivity. Qed.
 Example setattr_at_limit : m_sdsetattr 4 16383 = true /\ m_sdsetattr 4 16384 = false /\ m_sdsetattr 1 65536 = false
                          /\ m_grsetattr 8 8191 = true /\ m_grsetattr 8 8192 = false /\ m_sdsetattr 4 1073741824 = false.
+Proof. vm_compute. repeat split; reflexivity. Qed.
+Definition machine_history : list mop :=
+  [MSeek 2 2147483647; MSeek 1 1; MWrite 100; MSeek 0 2147483254; MWrite 100; MSeek 0 2147483253; MWrite 100; MAlloc 1; MAlloc 0;
+   MInsert; MFdefine 1 65535; MFdefine 4 16384; MFdefine 1 40000;
+   MSetFields [Some 0%nat; None]; MSetFields [Some 0%nat; Some 1%nat]; MSetFields [Some 1%nat; None]; MSeekRec 53682; MSeekRec 53681;
+   MWriteRecs 53682; MSetName 65536; MSetName 65535; MSetAttr 4 16384; MSetAttr 4 16383;
+   MNewRef; MSdCreate 33 5; MSdCreate 32 256; MResetMax 5 37; MResetMax (-1) 37].
+Example machine_history_ok : Forall op_ok machine_history /\ minv (m_init 294 true 294 0).
+Proof.
+  split; [|apply init_inv; unfold INT32_MAX; lia].
+  unfold machine_history.
+  repeat (apply Forall_cons; [simpl; unfold is_int32, DF_START, DF_CURRENT, DF_END;
+                              first [exact I | lia | (split; lia) | (split; [tauto | lia]) | (split; [right; lia | lia])]|]).
+  apply Forall_nil.
+Qed.
+(** both sides of every limit in one history: 12 refusals, each leaving the state as it was, and the end of file driven
+    to exactly 2^31-1 *)
+Example machine_history_results :
+  snd (m_run (m_init 294 true 294 0) machine_history) =
+  [MOk 2147483647; MRefused; MRefused; MOk 2147483254; MRefused; MOk 2147483253; MOk 100; MRefused; MOk 2147483647;
+   MOk 1; MOk 0; MRefused; MOk 0; MRefused; MRefused; MOk 40004; MRefused; MOk 2147454724; MRefused; MRefused;
+   MOk 65535; MRefused; MOk 16383; MOk 2; MRefused; MOk 0; MOk 5; MRefused]
+  /\ q_eof (fst (m_run (m_init 294 true 294 0) machine_history)) = 2147483647
+  /\ q_posn (fst (m_run (m_init 294 true 294 0) machine_history)) = 2147483353.
+Proof. vm_compute. repeat split; reflexivity. Qed.
+Example machine_frame_example :
+  let st := fst (m_run (m_init 294 true 294 0) [MSeek 0 2147483253; MWrite 100]) in
+  snd (m_step st (MAlloc 1)) = MRefused /\ fst (m_step st (MAlloc 1)) = st /\
+  snd (m_step st (MWrite 1)) = MRefused /\ fst (m_step st (MWrite 1)) = st.
 Proof. vm_compute. repeat split; reflexivity. Qed.
